@@ -274,6 +274,8 @@ class Tracer:
             return f"adp.ping {c} {kw['wid']} {kw['label_out']} {st['tat']} {tx}"
         if op == "close":
             return f"adp.close {c} {st['tat']} {tx}"
+        if op == "cancel":
+            return f"adp.cancel {c} {kw['wid']}"
         if op == "mkstream":
             return f"adp.mkstream {c} {kw['sid']}"
         if op == "write":
@@ -468,16 +470,19 @@ def make_traced_classes():
         # -- coroutine API: the synchronous part (up to the first suspension) is the atomic step
         async def wait_connected(self, _wid=None):
             wid = self._tr.new_waiter("conn", self, _wid)
+            self._tr.waiters[wid]["task_ref"] = asyncio.current_task()
             st = self._tr.begin(self, "waitconn", wid=wid)
             await _drive(self._tr, st, wid, super().wait_connected())
 
         async def wait_closed(self, _wid=None):
             wid = self._tr.new_waiter("closed", self, _wid)
+            self._tr.waiters[wid]["task_ref"] = asyncio.current_task()
             st = self._tr.begin(self, "waitclosed", wid=wid)
             await _drive(self._tr, st, wid, super().wait_closed())
 
         async def ping(self, _wid=None, _label=None):
             wid = self._tr.new_waiter("ping", self, _wid)
+            self._tr.waiters[wid]["task_ref"] = asyncio.current_task()
             captured = []
             st = self._tr.begin(self, "ping", wid=wid, label=_label, captured=captured)
             loop = self._loop
@@ -832,6 +837,7 @@ class AdapterImpl:
         self.writers = {}
         self.keep = []
         self.tasks = []
+        self.by_wid = {}
 
     def close(self):
         for t in self.tasks:
@@ -1012,15 +1018,26 @@ class AdapterImpl:
                     p.transmit()
             elif op == "adp.waitconn":
                 self.tasks.append(self.loop.create_task(self._guard(p.wait_connected(_wid=int(t[2])))))
+                self.by_wid[int(t[2])] = self.tasks[-1]
                 await self._settle()
             elif op == "adp.waitclosed":
                 self.tasks.append(self.loop.create_task(self._guard(p.wait_closed(_wid=int(t[2])))))
+                self.by_wid[int(t[2])] = self.tasks[-1]
                 await self._settle()
             elif op == "adp.ping":
                 q.timer = ofbits(t[4])
                 q.tx = self._mk_events(p, t[5])
                 self.tasks.append(self.loop.create_task(self._guard(p.ping(_wid=int(t[2]), _label=int(t[3])))))
+                self.by_wid[int(t[2])] = self.tasks[-1]
                 await self._settle()
+            elif op == "adp.cancel":
+                # the application cancels the task that awaits waiter `wid` (e.g. asyncio.wait_for timing out)
+                task = self.by_wid.get(int(t[2]))
+                if task is not None:
+                    task.cancel()
+                await self._settle()
+                st = tr.begin(p, "cancel", wid=int(t[2]))
+                tr.end(st)
             elif op == "adp.close":
                 q.timer = ofbits(t[2])
                 q.tx = self._mk_events(p, t[3])
@@ -1055,7 +1072,7 @@ class AdapterImpl:
     async def _guard(self, coro):
         try:
             await coro
-        except Exception:
+        except (Exception, asyncio.CancelledError):
             pass
 
     def _foreign_token(self, label):
@@ -1178,6 +1195,20 @@ class World:
                                  after="T" if "T" in events_seen else "H", outcome="pending-after-deciding-event")
             self.bg.append(self.loop.create_task(watch()))
         self.waiters.append(w)
+        # the application may cancel the awaiting task at any point (asyncio.wait_for timing out, task.cancel())
+        if self.rng.random() < self.plan.get("p_cancel", 0.25):
+            w.cancel_requested = True
+            delay = self.rng.choice([0.0, 0.0, 0.001, 0.01, 0.1, 1.0])
+
+            async def canceller():
+                await asyncio.sleep(delay)
+                if not task.done():
+                    wid = next((k for k, x in self.tr.waiters.items() if x.get("task_ref") is task), 999999)
+                    st = self.tr.begin(proto, "cancel", wid=wid)
+                    task.cancel()
+                    self.tr.end(st)
+                    self.notes["cancelled"] = self.notes.get("cancelled", 0) + 1
+            self.bg.append(self.loop.create_task(canceller()))
         return task
 
     def server_stream_handler(self, reader, writer):
@@ -1484,6 +1515,8 @@ class World:
                 self.problem(f"{w.kind} waiter started {w.phase} on {side} connection {c.cix} never finished "
                              f"(connected={c._connected}, closed={c._closed.is_set()})",
                              oracle="waiter", kind=w.kind, outcome="never-finished")
+            elif w.task.cancelled() and getattr(w, "cancel_requested", False):
+                pass        # cancelled by the application itself
             elif w.task.cancelled():
                 self.problem(f"{w.kind} waiter started {w.phase} was cancelled", oracle="waiter", kind=w.kind,
                              outcome="cancelled")
